@@ -1,10 +1,14 @@
 """C13 -- Interpreter reflects the live objects; safe mode runs no user descriptors.
 
-spec/InterpSafe.tla: object shapes x expression forms x queries x {safe, unsafe};
+spec/InterpSafe.tla: object shapes x expression forms x queries x {safe, unsafe}; the attribute
+kinds include user descriptor objects for every non-empty subset of {__get__, __set__, __delete__}
+on the class, a base and the metaclass, each crossed with a same-named entry in the instance
+__dict__ / the class body (Python: a get-descriptor that defines __set__ OR __delete__ is a data
+descriptor and wins over that entry);
 Reference = CPython attribute lookup / protocol semantics + the three sentences of the
 property, Design = transcription of getattr_static / is_allowed_getattr /
 CompiledValueFilter / access gates / MixedObject routing, with the code's deviations named
-D1..D6.  TLC: exhaustive Design |= Reference modulo the named deviations, the strict
+D1..D7.  TLC: exhaustive Design |= Reference modulo the named deviations, the strict
 invariants violated on the unchanged tree (counterexamples replayed on the real code), the
 repaired Design meeting the Reference.  Every TLC-emitted case is rendered as real Python
 objects whose special methods log, run through jedi.Interpreter, and compared with the
@@ -25,11 +29,13 @@ from harness.tlc import run_tlc, cases, validate_traces
 META = dict(
     spec='InterpSafe.tla, Trace_InterpSafe.tla',
     text='TLC checks exhaustively over all object shapes (instance/class receiver; attribute in instance '
-         'dict, class, base, metaclass, slots, nowhere; 12 attribute kinds x 6 metaclass kinds; __getattr__/'
-         '__getattribute__; 64 protocol-method subsets on object/list subclasses; paths of <=3-4 holders x 11 '
+         'dict, class, base, metaclass, slots, nowhere; 16 attribute kinds x 11 metaclass kinds, among them user '
+         'descriptors defining every non-empty subset of {__get__, __set__, __delete__} on the class / base / '
+         'metaclass, each crossed with a same-named instance-dict / class-body entry (data-descriptor priority '
+         'rule); __getattr__/__getattribute__; 64 protocol-method subsets on object/list subclasses; paths of <=3-4 holders x 11 '
          'leaf kinds) x expression forms x {safe, unsafe} that the transcription of getattr_static / '
          'is_allowed_getattr / CompiledValueFilter / access gates / MixedObject routing satisfies the '
-         'property modulo six named deviations, that the strict invariants fail on the tree as it is '
+         'property modulo seven named deviations (six of them repaired in /repo), that the strict invariants fail on the tree as it is '
          '(counterexamples replayed on the real code) and hold for the repaired Design; every emitted case '
          'is built as live objects with logging special methods and run through jedi.Interpreter '
          '(complete/infer/goto/help/get_signatures), observation vs Design prediction vs CPython oracle; '
@@ -42,7 +48,8 @@ META = dict(
               'live objects; code->spec trace validation of recorded Interpreter queries',
     design_ref='5/C13')
 
-ALLDEV = ['D1', 'D2', 'D3', 'D4', 'D5', 'D6']
+ALLDEV = ['D1', 'D2', 'D3', 'D4', 'D5', 'D6', 'D7']
+REPAIRED_IN_REPO = ['D1', 'D2', 'D3', 'D4', 'D5', 'D6']     # fix: commits in /repo (known_findings status "fixed")
 CFG = '''INIT Init
 NEXT Next
 CONSTANTS
@@ -73,6 +80,20 @@ class ND:
     def __get__(s, o, t): LOG.append(s.tag); return s.val
 class SO:
     def __set__(s, o, v): pass
+class DO:
+    def __delete__(s, o): pass
+class SD:
+    def __set__(s, o, v): pass
+    def __delete__(s, o): pass
+class GD:
+    def __init__(s, tag, val): s.tag = tag; s.val = val
+    def __get__(s, o, t): LOG.append(s.tag); return s.val
+    def __delete__(s, o): pass
+class GSD:
+    def __init__(s, tag, val): s.tag = tag; s.val = val
+    def __get__(s, o, t): LOG.append(s.tag); return s.val
+    def __set__(s, o, v): pass
+    def __delete__(s, o): pass
 class DC:
     def __get__(s, o, t): LOG.append('dcls'); return 0
 class Q:
@@ -95,6 +116,10 @@ def ck_lines(kind, a='a'):
         'ddesc': ["%s = DD('dget@%s', 1j)" % (a, a)],
         'nddesc': ["%s = ND('ndget@%s', bytearray())" % (a, a)],
         'setonly': ["%s = SO()" % a],
+        'delonly': ["%s = DO()" % a],
+        'sddesc': ["%s = SD()" % a],
+        'gddesc': ["%s = GD('gdget@%s', 2j)" % (a, a)],
+        'gsddesc': ["%s = GSD('gsdget@%s', 3j)" % (a, a)],
         'static': ["@staticmethod", "def %s(): return 0" % a],
         'clsm': ["@classmethod", "def %s(cls): return 0" % a],
         'dcls': ["%s = DC" % a],
@@ -108,6 +133,11 @@ def mk_lines(kind, a='a'):
         'prop': ["@property", "def %s(cls): LOG.append('mprop@%s'); return (1,)" % (a, a)],
         'ddesc': ["%s = DD('mdget@%s', {1})" % (a, a)],
         'nddesc': ["%s = ND('mndget@%s', {})" % (a, a)],
+        'setonly': ["%s = SO()" % a],
+        'delonly': ["%s = DO()" % a],
+        'sddesc': ["%s = SD()" % a],
+        'gddesc': ["%s = GD('mgdget@%s', {2})" % (a, a)],
+        'gsddesc': ["%s = GSD('mgsdget@%s', {3})" % (a, a)],
     }[kind]
 
 
@@ -199,13 +229,14 @@ FORMS = {
     'dot': ('%s.', 'complete'), 'dot_type': ('%s.', 'complete'),
     'attr_c': ('%s.A', 'complete'), 'attr_dot': ('%s.A.', 'complete'),
     'infer': ('%s.A', 'infer'), 'goto': ('%s.A', 'goto'), 'help': ('%s.A', 'help'),
+    'sig': ('%s.A(', 'get_signatures'),
     'item': ('%s[0].', 'complete'), 'item_i': ('%s[0]', 'infer'),
     'call': ('%s().', 'complete'), 'call_sig': ('%s(', 'get_signatures'),
     'for': ('for x in %s:\n    x.', 'complete'), 'unpack': ('a, b = %s\na.', 'complete'),
     'if': ('if %s:\n    y = 1\ny.', 'complete'), 'or': ('(%s or 1).', 'complete'),
     'not': ('(not %s).', 'complete'), 'next': ('next(%s).', 'complete'), 'len': ('len(%s).', 'complete'),
 }
-JUDGED = {'prop', 'dget', 'ndget', 'mprop', 'mdget', 'mndget', 'getitem', 'iter', 'next', 'call', 'len', 'bool'}
+JUDGED = {'prop', 'dget', 'ndget', 'gdget', 'gsdget', 'mprop', 'mdget', 'mndget', 'mgdget', 'mgsdget', 'getitem', 'iter', 'next', 'call', 'len', 'bool'}
 VALNAMES = {'int', 'str', 'float', 'bytes', 'complex', 'bytearray', 'list', 'frozenset', 'tuple', 'set',
             'dict', 'range'}
 DECOY = 2j
@@ -385,6 +416,16 @@ def observed(r):
     return ob
 
 
+def report(ctx, key, description, replay):
+    """One VIOLATION (with replay file) per shape key; further cases of the same key are counted.  Known
+    findings are counted per case by ctx.violation itself."""
+    seen = ctx.coverage.setdefault('violation_cases_by_key', {})
+    if key in seen:
+        seen[key] += 1
+    elif ctx.violation(key, description, replay):
+        seen[key] = 1
+
+
 def devkey(dev):
     return '+'.join(sorted(dev))
 
@@ -426,27 +467,27 @@ def judge(ctx, r, traces, trace_src):
             key = 'safe-exec:' + devkey(dev)
         else:
             key = 'safe-exec:unpredicted:%s:%s:%s' % (c['model'], c['form'], '+'.join(ob['exec']))
-        ctx.violation(key, 'safe mode executed user %s during %s on %r' % (ob['exec'], o['meth'], o['code']), rep)
+        report(ctx, key, 'safe mode executed user %s during %s on %r' % (ob['exec'], o['meth'], o['code']), rep)
     if ob.get('names_ok') is False and (c['model'] != 'path' or 'lsub' not in c['path']):
         broke = True
         key = 'names-missing:' + (devkey(dev) if dev and not pred['names_ok'] else
                                   'unpredicted:%s:%s' % (c['model'], c['form']))
-        ctx.violation(key, 'names after %r miss dir() entries %s' % (o['code'], o['missing'][:8]), rep)
+        report(ctx, key, 'names after %r miss dir() entries %s' % (o['code'], o['missing'][:8]), rep)
     if c['form'] == 'attr_c' and orc['indir'] and ob.get('has_a') is False:
         broke = True
-        ctx.violation('names-missing:unpredicted:attr:attr_c', 'attribute in dir() not offered for %r' % o['code'], rep)
+        report(ctx, 'names-missing:unpredicted:attr:attr_c', 'attribute in dir() not offered for %r' % o['code'], rep)
     if c['form'] == 'infer':
         if c['model'] == 'path' and 'lsub' not in c['path'] and ob['res'] != 'exact':
             broke = True
             key = 'infer-path:' + (devkey(dev) if dev and pred['res'] == ob['res'] else
                                    'unpredicted:%s->%s' % ('.'.join(c['path']), c['leaf']))
-            ctx.violation(key, 'infer %r reports %s, stored object is %s' % (o['code'], o.get('obs'), orc['actual']), rep)
+            report(ctx, key, 'infer %r reports %s, stored object is %s' % (o['code'], o.get('obs'), orc['actual']), rep)
         if c['model'] == 'attr' and orc['where'] and not orc['exec'] and orc['val'] not in ('other', 'none') \
                 and plain_attr(c) and o.get('obs') != [orc['desc']]:
             broke = True
             key = 'infer-attr:' + (devkey(dev) if dev and pred['res'] == ob['res'] else
                                    'unpredicted:%s:%s:%s' % (c['recv'], c['ck'], c['mk']))
-            ctx.violation(key, 'infer %r reports %s, stored object is %s' % (o['code'], o.get('obs'), orc['desc']), rep)
+            report(ctx, key, 'infer %r reports %s, stored object is %s' % (o['code'], o.get('obs'), orc['desc']), rep)
     # ---- Code vs Design
     mism = []
     if sorted(pred['exec']) != ob['exec']:
@@ -468,6 +509,19 @@ def judge(ctx, r, traces, trace_src):
     trace_src.append(r)
 
 
+def shadowing(c):
+    """('inst'|'meta', kind) when a get+set/delete descriptor hides a same-named instance-dict / class-body
+    entry and the (safe-mode) query resolves the attribute; else None."""
+    if c['model'] != 'attr' or c['mode'] != 'safe' or c['form'] not in ('infer', 'attr_dot', 'goto', 'help', 'sig',
+                                                                       'dot_type'):
+        return None
+    if c['recv'] == 'inst' and c['inst']:
+        return ('inst', c['ck'])
+    if c['recv'] == 'cls' and c['ck'] != 'none':
+        return ('meta', c['mk'])
+    return None
+
+
 def plain_attr(c):
     """attribute value stored as plain data where CPython finds it (sentence 3 applies)."""
     if c['recv'] == 'inst':
@@ -487,9 +541,14 @@ def event(c, o, orc, ob):
 
 
 # ---------------------------------------------------------------- random object graphs (code -> spec)
-CKS = ['none', 'plain', 'func', 'prop', 'propann', 'ddesc', 'nddesc', 'setonly', 'static', 'clsm', 'slot', 'dcls']
-MKS = ['none', 'none', 'plain', 'func', 'prop', 'ddesc', 'nddesc']
-ATTR_FORMS = ['dot', 'dot_type', 'attr_c', 'attr_dot', 'infer', 'goto', 'help']
+CKS = ['none', 'plain', 'func', 'prop', 'propann', 'ddesc', 'nddesc', 'setonly', 'static', 'clsm', 'slot', 'dcls',
+       'delonly', 'gddesc', 'sddesc', 'gsddesc']
+MKS = ['none', 'none', 'none', 'plain', 'func', 'prop', 'ddesc', 'nddesc', 'setonly', 'delonly', 'gddesc', 'sddesc',
+       'gsddesc']
+# user descriptor objects (any subset of __get__/__set__/__delete__): the priority rule between them and a
+# same-named instance-dict / class-body entry is what the static lookup has to get right
+UDESC = {'ddesc', 'nddesc', 'setonly', 'delonly', 'gddesc', 'sddesc', 'gsddesc'}
+ATTR_FORMS = ['dot', 'dot_type', 'attr_c', 'attr_dot', 'infer', 'goto', 'help', 'sig']
 PROTO_FORMS = ['dot', 'item', 'item_i', 'call', 'call_sig', 'for', 'unpack', 'if', 'or', 'not', 'next', 'len']
 
 
@@ -505,7 +564,7 @@ def random_graph(arg):
     attrs = []
     for a in names:
         ck = rng.choice(CKS)
-        inst = rng.random() < 0.4 and ck != 'slot'
+        inst = rng.random() < (0.6 if ck in UDESC else 0.4) and ck != 'slot'
         attrs.append((a, {'inst': inst, 'ck': ck, 'cw': rng.choice(['own', 'base']) if ck not in ('none', 'slot') else 'own',
                           'mk': rng.choice(MKS)}))
     hook = rng.choice(['none', 'none', 'getattr', 'getattribute'])
@@ -625,11 +684,11 @@ def run(ctx):
     os.environ['C13_TMP'] = ctx.tmp
     sys.setrecursionlimit(3000)
     maxpath = 3 if quick else 4
-    # C13_FIXED=D1,D3|all: model these deviations as repaired (for checking a patched tree)
-    # default: all six are repaired in /repo (fix: commits, see known_findings); C13_FIXED= (empty) models the
-    # code before the repairs
-    fx = os.environ.get('C13_FIXED', 'all')
-    fixed = ALLDEV if fx == 'all' else [d for d in fx.split(',') if d]
+    # C13_FIXED=D1,D3|all|repo: model these deviations as repaired (for checking a patched tree)
+    # default "repo": D1..D6 are repaired in /repo (fix: commits, see known_findings), D7 is open (known finding);
+    # C13_FIXED= (empty) models the code before the repairs, C13_FIXED=all a tree with D7 patched as well
+    fx = os.environ.get('C13_FIXED', 'repo')
+    fixed = ALLDEV if fx == 'all' else REPAIRED_IN_REPO if fx == 'repo' else [d for d in fx.split(',') if d]
     if any(d not in ALLDEV for d in fixed):
         raise MachineryError('C13_FIXED: unknown deviation in %r' % fx)
     ctx.coverage['deviations_modelled_as_repaired'] = fixed
@@ -639,10 +698,10 @@ def run(ctx):
 
     # All TLC runs of legs 1-3 are independent: run them concurrently (at most 8 JVMs at a time).
     strict = 'INVARIANT SafeNoExec\nINVARIANT InferPlainExact\nINVARIANT NamesSupersetDir'
-    nproc = 12
-    # quick: one residue class of the case space (seeded); thorough: 8 of the 12 (rotating with the seed),
-    # C13_FULL=1: all of them (76k cases; ~5 min on an idle 16-core machine)
-    nres = 1 if quick else (12 if os.environ.get('C13_FULL') else 8)
+    nproc = 24
+    # quick: one residue class of the case space (seeded); thorough: 12 of the 24 (rotating with the seed),
+    # C13_FULL=1: all of them (140k cases)
+    nres = 1 if quick else (nproc if os.environ.get('C13_FULL') else 12)
     rems = sorted((ctx.seed + i) % nproc for i in range(nres))
     jobs = {'mc': (write_cfg(ctx, 'mc.cfg', maxpath, 1, 0, fixed, body), dict(workers=8, coverage=True)),
             'fixed': (write_cfg(ctx, 'mc_fixed.cfg', maxpath, 1, 0, ALLDEV, strict + '\n' + body), dict(workers=8))}
@@ -656,11 +715,11 @@ def run(ctx):
 
     # 1. Design |= Reference, exhaustive: tree as it is (modulo named deviations)
     res = out['mc']
-    ctx.add_tlc(res, 'Design|=Reference modulo named deviations, exhaustive MaxPath=%d Fixed={}' % maxpath)
+    ctx.add_tlc(res, 'Design|=Reference modulo named deviations, exhaustive MaxPath=%d Fixed={%s}' % (maxpath, ','.join(fixed)))
     if res.violated:
         raise MachineryError('InterpSafe.tla: %s violated: a breach of the Reference that is not one of the named '
                              'deviations, or a lemma of the Design fails:\n%s' % (res.violated, res.trace[-1:]))
-    if res.distinct < 60000:
+    if res.distinct < 130000:
         raise MachineryError('vacuity: only %d states' % res.distinct)
     dead = [a for a, n in res.coverage.items() if n == 0 and a in (
         'Set', 'Start', 'AddProto', 'EndProtos', 'AddHolder', 'EndPath', 'EndPathSub')]
@@ -705,6 +764,15 @@ def run(ctx):
         for x in full:
             x['c']['protos'] = sorted(x['c']['protos'])
         cs += full
+    # vacuity: the slice must contain the shapes on which the data-descriptor priority rule decides (a
+    # get-descriptor that also defines __set__ and/or __delete__, shadowing a same-named instance-dict entry
+    # / class-body entry), queried in safe mode with a form that resolves the attribute
+    for kind in ('ddesc', 'gddesc', 'gsddesc', 'prop'):
+        n_i = sum(1 for x in cs if shadowing(x['c']) == ('inst', kind))
+        n_m = sum(1 for x in cs if shadowing(x['c']) == ('meta', kind))
+        ctx.coverage.setdefault('shadowing_data_descriptor_cases', {})[kind] = {'instance_dict': n_i, 'class_body': n_m}
+        if not n_i or not n_m:
+            raise MachineryError('vacuity: no replayed case with a shadowing %s data descriptor (%d/%d)' % (kind, n_i, n_m))
     ctx.log('replaying %d TLC cases' % len(cs))
     results = jutil.pmap(replay_case, cs, chunksize=64)
     jutil.check_worker_errors(results)
@@ -758,23 +826,42 @@ def run(ctx):
                 'CONSTRAINT Verdict\nCHECK_DEADLOCK FALSE\n' % ', '.join('"%s"' % d for d in fixed))
     verdicts = validate_traces('Trace_InterpSafe', tcfg, all_traces, ctx, 'Trace_InterpSafe', chunk=8000)
     nrej = 0
-    for i, (v, t) in enumerate(zip(verdicts, all_traces)):
-        if v['accepted']:
-            continue
-        nrej += 1
-        clauses, devs = key_of_why(v['why'])
-        if 'OracleMismatch' in clauses:
-            raise MachineryError('Trace_InterpSafe: PyLookup disagrees with the logged CPython oracle: %s' % t[v['at'] - 1])
-        ev = t[v['at'] - 1] if v['at'] else None
-        if i < len(traces):
-            # already judged (and keyed) by the replay leg; TLC must agree that the Reference is broken
-            ctx.count('replay_events_rejected_by_reference')
-            continue
-        src = rsrc[i - len(traces)]
-        info = src['srcs'][v['at'] - 1] if v['at'] else None
-        ctx.violation('trace:%s:%s' % ('+'.join(clauses) or '?', '+'.join(devs) or 'unpredicted'),
-                      'recorded Interpreter query violates reference clause(s) %s (blamed deviations %s)' % (clauses, devs),
-                      {'query': info, 'class_source': src['source'], 'where': src['where'], 'event': ev})
+    # a trace is judged up to its first rejected event: the events after it are judged as a trace of their
+    # own (so that a known finding early in a trace does not hide the queries recorded after it)
+    pending = [(i, 0, v, t) for i, (v, t) in enumerate(zip(verdicts, all_traces))]
+    for rnd in range(4):
+        suffixes = []
+        for i, off, v, t in pending:
+            if v['accepted']:
+                continue
+            nrej += 1
+            clauses, devs = key_of_why(v['why'])
+            if 'OracleMismatch' in clauses:
+                raise MachineryError('Trace_InterpSafe: PyLookup disagrees with the logged CPython oracle: %s' % t[v['at'] - 1])
+            ev = t[v['at'] - 1] if v['at'] else None
+            if i < len(traces):
+                # already judged (and keyed) by the replay leg; TLC must agree that the Reference is broken
+                ctx.count('replay_events_rejected_by_reference')
+                continue
+            src = rsrc[i - len(traces)]
+            info = src['srcs'][off + v['at'] - 1] if v['at'] else None
+            tags = '+'.join(sorted(set(ev['exec']) & JUDGED)) if ev and 'SafeNoExec' in clauses else ''
+            report(ctx, 'trace:%s:%s' % ('+'.join(clauses) or '?', '+'.join(devs) or ('unpredicted' + (':' + tags if tags else ''))),
+                   'recorded Interpreter query violates reference clause(s) %s (blamed deviations %s)' % (clauses, devs),
+                   {'query': info, 'class_source': src['source'], 'where': src['where'], 'event': ev})
+            if v['at'] and v['at'] < len(t):
+                suffixes.append((i, off + v['at'], t[v['at']:]))
+        if not suffixes:
+            break
+        if rnd == 3:
+            ctx.count('trace_suffixes_after_4_rejections_not_judged', len(suffixes))
+            break
+        n0 = ctx.coverage['traces_validated_against_impl']
+        vs = validate_traces('Trace_InterpSafe', tcfg, [x[2] for x in suffixes], ctx,
+                             'Trace_InterpSafe, events after a rejected event (round %d)' % (rnd + 1), chunk=8000)
+        ctx.coverage['traces_validated_against_impl'] = n0
+        ctx.count('trace_suffixes_rejudged', len(suffixes))
+        pending = [(i, off, v, t) for (i, off, t), v in zip(suffixes, vs)]
     ctx.coverage['traces_rejected'] = nrej
     # replay-leg judgement and TLC judgement must coincide on the replayed events
     py_bad = sum(1 for r in trace_src if is_breach(r))
@@ -797,20 +884,33 @@ def run(ctx):
     b2[0]['names_ok'] = False
     b3 = copy.deepcopy(pick2[0][:1])
     b3[0]['obs'] = ['complex:instance']
+    # an instance-dict entry shadowed by a __get__+__delete__ descriptor / a class-body entry shadowed by such a
+    # descriptor on the metaclass, whose __get__ ran in safe mode: must be rejected for SafeNoExec (and only that)
+    b4 = copy.deepcopy(pick[0][:1])
+    b4[0]['s'].update(recv='inst', inst=True, ck='gddesc', cw='own', form='infer')
+    b4[0].update(exec=['gdget'], obs=['complex:instance'], actual=['complex:instance'], names_ok=True,
+                 py_known=True, py_exec=['gdget'], py_val='complex')
+    b5 = copy.deepcopy(b4)
+    b5[0]['s'].update(recv='cls', inst=False, ck='plain', mk='gddesc')
+    b5[0].update(exec=['mgdget'], obs=['set:instance'], actual=['set:instance'], py_exec=['mgdget'], py_val='set')
     n0 = ctx.coverage['traces_validated_against_impl']
-    vs = validate_traces('Trace_InterpSafe', tcfg, [b1, b2, b3], ctx, 'binding self-test')
+    vs = validate_traces('Trace_InterpSafe', tcfg, [b1, b2, b3, b4, b5], ctx, 'binding self-test')
     ctx.coverage['traces_validated_against_impl'] = n0
     if any(v['accepted'] for v in vs):
         raise MachineryError('binding self-test: corrupted trace accepted %s' % vs)
+    for v in vs[3:]:
+        if 'SafeNoExec' not in v['why'] or 'OracleMismatch' in v['why']:
+            raise MachineryError('binding self-test: shadowing-descriptor record rejected for %s' % v['why'])
     ctx.coverage['binding_selftest'] = 'corrupted records rejected: %s' % [v['why'] for v in vs]
 
     ctx.assumptions += [
-        'judged user code = property getters, user __get__ (class, base, metaclass), __getitem__/__iter__/'
+        'judged user code = property getters, user __get__ of descriptors with any of __set__/__delete__ '
+        '(class, base, metaclass), __getitem__/__iter__/'
         '__next__/__call__/__len__/__bool__; __getattr__/__getattribute__/__dir__ are recorded only',
         'sentence 3 is judged on exact builtin containers (dict/list/tuple) and instance attributes; list '
         'subclasses are modelled but not judged',
         'goto/help observations include reading Name.type (as a REPL front end does); dot_type = complete + '
-        'Completion.type',
+        'Completion.type; sig = get_signatures on `r.a(`',
         'queries raising internal errors (absent typeshed) are blocked, not judged']
     return None
 
